@@ -1,6 +1,6 @@
 (* TunerPolledProofs.v — (1) every trial that is started stays in the set the loop polls until the loop has
-   observed the end of its run; (2) the tuning loop with start_jobs_without_delay=False ([loop_b], /repo 1516ffc)
-   keeps the worker budget, the life cycle and (1). *)
+   observed the end of its run, for both settings of start_jobs_without_delay (model/Tuner.v count_busy);
+   (2) a generic induction rule for the loop. *)
 From Verif Require Import model.Base model.Tuner proofs.TunerProofs.
 From Coq Require Import Lia.
 Local Open Scope nat_scope.
@@ -233,9 +233,11 @@ Proof. intros He HR. apply (Rinv_quiet st _ [e]); auto. intros x e' [<-|[]]. app
 
 Lemma schedule_new_tasks_Rinv st st' r : schedule_new_tasks prm o st = (st', r) -> Rinv st -> Rinv st'.
 Proof.
-  unfold schedule_new_tasks. destruct (Nat.leb _ _).
-  - intros H HR. injection H as <- <-. apply emit_Rinv; [reflexivity|exact HR].
-  - apply schedule_k_Rinv.
+  apply (schedule_new_tasks_inv prm o Rinv).
+  - intros s0 s1 [->|[busy Hb]] HR; [exact HR|]. apply busy_look_spec in Hb. destruct Hb as (R1 & _ & Ht & _).
+    apply (Rinv_quiet s0 s1 [EBBusy busy]); auto. intros x e [<-|[]]. reflexivity.
+  - intros s0 HR. apply emit_Rinv; [reflexivity|exact HR].
+  - intros k s0 s2 r2 Hk _. eapply schedule_k_Rinv; eauto.
 Qed.
 
 Lemma iteration_end_Rinv st st' c : iteration_end prm o st = (st', c) -> Rinv st -> Rinv st'.
@@ -341,48 +343,9 @@ Proof.
           destruct (iteration_end prm o st2) as [st3 c'] eqn:Ei; (eapply IH; [exact H| |exact Hx]; eapply Hend; eauto).
 Qed.
 
-(* start_jobs_without_delay=True *)
-Lemma sched_nodelay_PInv st st' r : PInv st -> schedule_new_tasks prm o st = (st', r) -> PInv st'.
+Lemma sched_PInv st st' r : PInv st -> schedule_new_tasks prm o st = (st', r) -> PInv st'.
 Proof.
   intros (A & B & C) H. split; [eapply schedule_new_tasks_budget; eauto|split; [eapply schedule_new_tasks_life; eauto|eapply schedule_new_tasks_Rinv; eauto]].
-Qed.
-
-(* start_jobs_without_delay=False *)
-Lemma busy_look_PInv st st' busy : busy_look o st = (st', busy) -> PInv st -> PInv st' /\ s_running st' = s_running st.
-Proof.
-  unfold busy_look. intros H (A & (HLI & HR) & C). injection H as <- _.
-  set (st1 := all_trial_results o (seq 0 (s_ntrials st)) st).
-  pose proof (atr_same o (seq 0 (s_ntrials st)) st) as (S1 & S2 & S3 & _).
-  fold st1 in S1, S2, S3.
-  split; [|simpl; exact S1]. split; [|split].
-  - apply binv_emit. apply (binv_mono prm st st1); auto. apply atr_mono.
-  - destruct HLI as (L1 & L3 & L4). unfold LInv, LI. cbn [s_trace s_running s_ntrials s_bt emit].
-    assert (Hph : forall x, phase_of x (EBBusy (filter (fun t => active (b_w (s_bt st1 t))) (seq 0 (s_ntrials st))) :: s_trace st1) = phase_of x (s_trace st))
-      by (intro x; simpl; rewrite S3; reflexivity).
-    split; [split; [|split]|].
-    + intro x. rewrite Hph. apply L1.
-    + intros x Hx. rewrite Hph. apply L3. rewrite <- S2. exact Hx.
-    + intros x Hx. rewrite Hph. apply L4. destruct Hx as [Hx|Hx].
-      * left. unfold st1 in Hx. rewrite atr_td in Hx. exact Hx.
-      * right. eapply atr_paused; eauto.
-    + intros x Hx. rewrite Hph. apply HR. rewrite <- S1. exact Hx.
-  - intros x Hx. cbn [s_trace s_running emit] in *. rewrite S1. apply C. simpl in Hx. rewrite S3 in Hx. exact Hx.
-Qed.
-
-Lemma schedule_k_PInv k : forall st st' r, schedule_k o k st = (st', r) -> PInv st ->
-  length (s_running st) + k <= n_workers prm -> PInv st'.
-Proof.
-  intros st st' r H (A & B & C) Hlen. split; [eapply schedule_k_budget; eauto|split; [eapply schedule_k_life; eauto|eapply schedule_k_Rinv; eauto]].
-Qed.
-
-Lemma sched_busy_PInv st st' r : PInv st -> schedule_new_tasks_busy prm o st = (st', r) -> PInv st'.
-Proof.
-  unfold schedule_new_tasks_busy. intros Hi H.
-  destruct (busy_look o st) as [st1 busy] eqn:Eb. apply busy_look_PInv in Eb; [|exact Hi]. destruct Eb as [H1 Hr].
-  destruct (Nat.leb _ _).
-  - injection H as <- <-. destruct H1 as (A & B & C).
-    split; [apply binv_emit; exact A|split; [apply LInv_emit_quiet; [reflexivity|exact B]|apply emit_Rinv; [reflexivity|exact C]]].
-  - eapply schedule_k_PInv; [exact H|exact H1|]. destruct H1 as ((_ & I2 & _) & _). lia.
 Qed.
 
 (* THEOREMS, for both settings of start_jobs_without_delay: at every iteration boundary / normal loop exit
@@ -392,14 +355,7 @@ Theorem run_loop_polled fuel st x :
   run_loop prm o fuel = (st, x) -> PErr st /\ ((x = LFuel \/ x = LExit None) -> PInv st).
 Proof.
   unfold run_loop. destruct (stop_condition prm o (emit ECbTuningStart init_state)) as [st0 c0] eqn:E0. intro H.
-  eapply (loop_gen_PInv (schedule_new_tasks prm o)); [apply sched_nodelay_PInv|exact H|eapply PInv_init; eauto].
-Qed.
-
-Theorem run_loop_b_polled fuel st x :
-  run_loop_b prm o fuel = (st, x) -> PErr st /\ ((x = LFuel \/ x = LExit None) -> PInv st).
-Proof.
-  unfold run_loop_b. destruct (stop_condition prm o (emit ECbTuningStart init_state)) as [st0 c0] eqn:E0. intro H.
-  eapply (loop_gen_PInv (schedule_new_tasks_busy prm o)); [apply sched_busy_PInv|exact H|eapply PInv_init; eauto].
+  eapply (loop_gen_PInv (schedule_new_tasks prm o)); [apply sched_PInv|exact H|eapply PInv_init; eauto].
 Qed.
 
 (* the next poll lists every trial of the running set *)
